@@ -463,9 +463,10 @@ class Ctx:
                               how_to_replay=f'cd /verif && ./check {self.pid} --quick'))
         seen_known = set()
         for k, d in self.known_hits:
-            if k['key'] not in seen_known:
-                seen_known.add(k['key'])
-                lines.append(f"KNOWN-FINDING: property={self.pid} {k['what']}")
+            seen_known.add(k['key'])
+        for k in self.known:
+            lines.append(f"KNOWN-FINDING: property={self.pid} {k['key']}: {k['what']}"
+                         f" [{'reproduced in this run' if k['key'] in seen_known else 'not re-triggered by the inputs of this run'}]")
         if impl:
             rc = 1
             # one line per distinct violation (max 5), first is the smallest
